@@ -114,6 +114,14 @@ def static(c0: int, c1: int, c2: int, c3: int, c4: int, c5: int, c6: int, c7: in
         return fail('exception left handle_events', exc=repr(e), path=repr(path))
     if not (td or h.must_flush_before_shutdown):
         return fail('static request neither answered-and-closed', path=repr(path))
+    # the same request again, on a new connection of the same process: the answer does not depend on what was asked before
+    try:
+        h_b, out_b, td_b = _serve(flags, path)
+    except Exception as e:
+        return fail('exception left handle_events when the request is repeated', exc=repr(e), path=repr(path))
+    if out_b[:60] != out[:60] or len(out_b) != len(out):
+        return fail('the same request, repeated on a new connection, is answered differently', path=repr(path), first=repr(out[:40]),
+                    again=repr(out_b[:40]))
     spath = path.decode()
     before_q = spath.split('?', 1)[0]
     if before_q.startswith('//'):
